@@ -343,8 +343,11 @@ def one_history(ctx, net, rng, idx):
             return Reply(exc=transport_error())  # OFX Home unreachable: that layer is absent in these histories
         if b"<PROFRQ>" in (rec["body"] or b""):
             return Reply(ofxserver.profile_ok("20200101000000.000[+0:UTC]", rec["url"], rec["url"]))
+        if b"<ACCTINFORQ>" in (rec["body"] or b""):
+            return Reply(ofxserver.acctinfo_ok(listed["accounts"]))
         return Reply(ofxserver.statement_ok())
 
+    listed = {"accounts": []}
     net.handler = handler
     runs = []
     expected = {}  # effective values of `nick` from the FI database + what the last write persisted
@@ -362,7 +365,7 @@ def one_history(ctx, net, rng, idx):
     first_url = gen_url(rng, "hist")
     v1only = rng.random() < 0.3  # only then may --unclosedelements be persisted (it is incompatible with OFX 2xx)
     for r in range(nruns):
-        kind = rng.choice(["write", "write", "plain", "dry-write"]) if r else "write"
+        kind = rng.choice(["write", "write", "plain", "dry-write", "write", "plain", "dry-write", "all-write"]) if r else "write"
         cliopts = {}
         if r == 0:
             cliopts.update(bankid=hist_value(rng, "bankid", r), brokerid=hist_value(rng, "brokerid", r), user=hist_value(rng, "user", r))
@@ -404,9 +407,38 @@ def one_history(ctx, net, rng, idx):
             import ofxtools.scripts.ofxget as og1
             known = {a.dest for a in og1.make_argparser().subparsers[cmd]._actions}
             cliopts = {k: v for k, v in cliopts.items() if k in known}
+        active = None
+        if kind == "all-write":
+            # 'stmt --all --write': the accounts the server lists as ACTIVE replace the saved lists - all six of them, also the
+            # kinds of which it lists none (no account options on the command line: that combination is UNSPECIFIED)
+            cmd = "stmt"
+            cliopts = {k: v for k, v in cliopts.items() if k not in LIST_OPTS and k not in ("bankid", "brokerid")}
+            bid = expected.get("bankid") or "123456789"
+            brk = expected.get("brokerid") or "broker.example.com"
+            accts, active = [], {t: [] for t in LIST_OPTS}
+            for t in LIST_OPTS:
+                for j in range(rng.choice([0, 0, 1, 2])):
+                    st = rng.choice(["ACTIVE", "ACTIVE", "AVAIL", "PEND"])
+                    aid = f"{t[:2]}{r}{j}{rng.randint(10, 99)}"
+                    a = {"acctid": aid, "status": st}
+                    if t == "creditcard":
+                        a["kind"] = "cc"
+                    elif t == "investment":
+                        a.update(kind="inv", brokerid=brk)
+                    else:
+                        a.update(kind="bank", accttype=t.upper(), bankid=bid)
+                    accts.append(a)
+                    if st == "ACTIVE":
+                        active[t].append(aid)
+            if not any(active.values()):
+                accts.append({"kind": "cc", "acctid": f"cc{r}000", "status": "ACTIVE"})
+                active["creditcard"].append(f"cc{r}000")
+            listed["accounts"] = accts
         ctx.count(f"history_runs_{cmd}_{kind}")
         argv = argv_for(nick, cliopts, cmd) + ["--password", canary]
-        if kind in ("write", "dry-write"):
+        if kind == "all-write":
+            argv.append("--all")
+        if kind in ("write", "dry-write", "all-write"):
             argv.append("--write")
         if kind == "dry-write":
             argv.append("--dryrun")
@@ -451,6 +483,16 @@ def one_history(ctx, net, rng, idx):
             for opt in PERSISTABLE:
                 if opt in cliopts:
                     expected[opt] = cliopts[opt]
+            if active is not None:
+                for t in LIST_OPTS:
+                    if active[t]:
+                        expected[t] = active[t]
+                    else:
+                        expected.pop(t, None)
+                if any(active[t] for t in LIST_OPTS if t not in ("creditcard", "investment")):
+                    expected["bankid"] = bid
+                if active["investment"]:
+                    expected["brokerid"] = brk
             c = configparser.ConfigParser(interpolation=None)
             c.read_string(after.decode())
             cu = c.defaults().get("clientuid")
